@@ -557,6 +557,59 @@ func (r *run) effectful(c *ast.CallExpr) bool {
 	return true
 }
 
+// sourceText renders an argument by what it stands for: a named constant by its value, a local that is defined once
+// in the function by its definition (a label read into a local before it is reported).
+func (r *run) sourceText(e ast.Expr) string {
+	in := r.in
+	id, ok := e.(*ast.Ident)
+	if !ok {
+		return in.exprText(e)
+	}
+	switch obj := in.Info.ObjectOf(id).(type) {
+	case *types.Const:
+		if obj.Val() != nil {
+			return obj.Val().ExactString()
+		}
+	case *types.Var:
+		if obj.IsField() || r.fd == nil || r.fd.Body == nil {
+			break
+		}
+		var def ast.Expr
+		n := 0
+		ast.Inspect(r.fd.Body, func(nd ast.Node) bool {
+			switch x := nd.(type) {
+			case *ast.AssignStmt:
+				for i, l := range x.Lhs {
+					if li, ok := l.(*ast.Ident); ok && in.Info.ObjectOf(li) == obj {
+						n++
+						if len(x.Lhs) == len(x.Rhs) {
+							def = x.Rhs[i]
+						} else {
+							def = nil
+						}
+					}
+				}
+			case *ast.ValueSpec:
+				for i, nm := range x.Names {
+					if in.Info.ObjectOf(nm) == obj {
+						n++
+						if i < len(x.Values) {
+							def = x.Values[i]
+						}
+					}
+				}
+			}
+			return true
+		})
+		if n == 1 && def != nil {
+			if _, isCall := def.(*ast.CallExpr); !isCall {
+				return in.exprText(def)
+			}
+		}
+	}
+	return in.exprText(e)
+}
+
 func (r *run) posEpoch(v Val) string {
 	switch v.K {
 	case "pos", "sp":
@@ -658,7 +711,7 @@ func (r *run) call(s *State, c *ast.CallExpr) []outcome {
 			} else if a[0].IsFalse() {
 				b = "F"
 			}
-			s.event("failAt", c.Pos(), b, r.posEpoch(a[1]), in.exprText(c.Args[2]))
+			s.event("failAt", c.Pos(), b, r.posEpoch(a[1]), r.sourceText(c.Args[2]))
 		} else {
 			s.undecided("failAt with %d arguments", len(a))
 		}
